@@ -92,7 +92,7 @@ func isGlobalLoad(v ssa.Value, pkgPath, name string) bool {
 }
 
 func checkC16(c *Ctx) {
-	c.Explanation = "Decides the structure that makes rtcmlogger a lossless tee: (R1) in the copy loop every successful read of n>0 bytes from standard input is followed, before the next read and on every path, by exactly one write of readBuffer[:n] (same buffer, same n) to standard output and then exactly one send to the recorder; the only edges that bypass them are end-of-file and n==0; (R2) what is sent to the recorder is a fresh buffer of length n filled by copy from readBuffer[:n], so the recorder never aliases the buffer that the next read overwrites; (R3) the recorder writes every block it receives, unmodified, before its next receive and leaves its loop only when the channel is closed; (R4) start closes the recorder channel and waits for the recorder goroutine before returning, on every path (join rule of C11)."
+	c.Explanation = "Decides the structure that makes rtcmlogger a lossless tee: (R1) in the copy loop every successful read of n>0 bytes from standard input is followed, before the next read and on every path, by exactly one write of readBuffer[:n] (same buffer, same n) to standard output and then exactly one send to the recorder; the only edges that bypass them are end-of-file and n==0; (R2) what is sent to the recorder is a fresh buffer of length n filled by copy from readBuffer[:n], so the recorder never aliases the buffer that the next read overwrites; (R3) the recorder writes every block it receives, unmodified, before its next receive and leaves its loop only when the channel is closed; (R4) start closes the recorder channel and waits for the recorder goroutine before returning, on every path (join rule of C11). R1 also requires that every return of the copy loop is reached over an err == io.EOF edge on every path."
 	c.NotDecided = "dailylogger's own file handling and midnight gating (dependency); what os.File.Read/Write do; partial writes to stdout (ignored by design); a read that returns n>0 together with io.EOF (os.File never does)."
 	c.Assumptions = append(c.Assumptions, "os.File.Read returns (0, io.EOF) at end of file, never n>0 together with io.EOF")
 	P := c.P
@@ -209,6 +209,33 @@ func checkC16(c *Ctx) {
 		c.Fail("C16-R1", "readAndWrite:record-every-block", read.Pos(), "refuted", "a block read from stdin can reach the next read (or the end) without being sent to the recorder", P.blockPath(path)...)
 	} else {
 		c.OK("C16-R1", "readAndWrite:record-every-block", read.Pos(), "every path from a read with n>0 to the next read/return passes the recorder send")
+	}
+	// the copy loop ends only at the end of the input: every return is reached over an
+	// `err == io.EOF` edge (a read error that is not EOF is reported and the read retried; stopping
+	// there drops everything that arrives afterwards from stdout and from the record)
+	isEOFFact := func(f EdgeFact) bool {
+		cmp, ok := f.Cond.(*ssa.BinOp)
+		if !ok || (cmp.X != errVal && cmp.Y != errVal) {
+			return false
+		}
+		other := cmp.Y
+		if cmp.Y == errVal {
+			other = cmp.X
+		}
+		if !isGlobalLoad(stripIface(other), "io", "EOF") {
+			return false
+		}
+		return (cmp.Op == token.EQL && f.Val) || (cmp.Op == token.NEQ && !f.Val)
+	}
+	eofOnly := true
+	for _, r := range returnsOf(rw) {
+		if !onEveryPath(r.Block(), isEOFFact) {
+			eofOnly = false
+			c.Fail("C16-R1", "readAndWrite:stops-only-at-EOF", r.Pos(), "refuted", "the copy loop can end for a reason other than end of input: what arrives after a transient read error is neither passed on nor recorded")
+		}
+	}
+	if eofOnly {
+		c.OK("C16-R1", "readAndWrite:stops-only-at-EOF", rw.Pos(), "every return follows an err == io.EOF edge")
 	}
 	if path, _ := atMostOnce(rw, isW, isRead); path != nil {
 		c.Fail("C16-R1", "readAndWrite:write-once", read.Pos(), "refuted", "a block can be written to stdout twice", P.blockPath(path)...)
